@@ -126,6 +126,11 @@ def cases(tier, seed):
             for r in range(reps):
                 k += 1
                 yield {"id": k, "seed": base + k, "tmpl": name, "hist": hi}
+    for name in sorted(API_PROGRAMS):
+        for aged in (False, True):
+            for r in range(reps):
+                k += 1
+                yield {"id": k, "seed": base + k, "prog": name, "aged": aged}
 
 
 _S = {}
@@ -221,6 +226,8 @@ def replay(b, h2, seed):
 
 
 def run_case(case):
+    if case.get("prog"):
+        return run_api(case)
     from . import gen_v2, steps, v2h
 
     L = v2h.load()
@@ -347,6 +354,127 @@ def _firstdiff(a, b):
         if x != y:
             return {"step": i, "left": x, "right": y}
     return {"len": (len(a), len(b))}
+
+
+# ----------------------------------------------------------------------------- through the runtime API, with runtime-level actions
+# The way LLMRails uses the state: every turn goes through RuntimeV2_x.process_events, the returned State is serialised and
+# restored before the next turn. These programs use what only exists at that level: locally executed actions with return
+# values, flows added / removed at run time (AddFlowsAction / RemoveFlowsAction, as the flow-generation library flows do).
+API_PROGRAMS = {
+    "teach-then-use": (
+        "flow main\n  match Hi()\n  send Hello()\n  match Teach()\n  $src = await FetchSourceAction(which=\"a\")\n  $added = await AddFlowsAction(config=$src)\n"
+        "  send Learned(n=len($added))\n  start taught a\n  match Again()\n  start taught a\n  match Never()\n",
+        ["Hi", "Teach", "Again", "Merci", "X"],
+    ),
+    "teach-later-await": (
+        "flow main\n  activate teacher\n  activate user flow\n  match Never()\n\n"
+        "flow teacher\n  match Teach()\n  $src = await FetchSourceAction(which=\"b\")\n  await AddFlowsAction(config=$src)\n  send Learned()\n\n"
+        "flow user flow\n  match Use()\n  await taught b\n  send Used()\n",
+        ["Teach", "Use", "Merci", "Use", "Teach", "Merci"],
+    ),
+    "teach-remove-teach": (
+        "flow main\n  match Teach()\n  $src = await FetchSourceAction(which=\"a\")\n  await AddFlowsAction(config=$src)\n  send Learned()\n  match Forget()\n"
+        "  await RemoveFlowsAction(flow_ids=[\"taught a\"])\n  send Forgot()\n  match Teach()\n  $src = await FetchSourceAction(which=\"c\")\n  await AddFlowsAction(config=$src)\n"
+        "  start taught a\n  match Never()\n",
+        ["Teach", "X", "Forget", "Teach", "Merci"],
+    ),
+    "local-action-values": (
+        "flow main\n  activate counter\n  match Never()\n\n"
+        "flow counter\n  match Tick()\n  $v = await CountAction(step=2)\n  send Count(v=$v[\"n\"], tags=$v[\"tags\"])\n",
+        ["Tick", "Tick", "X", "Tick"],
+    ),
+}
+TAUGHT = {
+    "a": "flow taught a\n  send Bonjour()\n  match Merci()\n  send DeRien()\n",
+    "b": "flow taught b\n  send Salut()\n  match Merci()\n",
+    "c": "flow taught a\n  send Hola()\n  match Merci()\n",
+}
+
+
+def run_api(case):
+    import asyncio
+
+    from . import steps, v2h
+
+    L = v2h.load()
+    ser = _S["ser"]
+    from nemoguardrails import RailsConfig
+    from nemoguardrails.colang.v2_x.runtime.runtime import RuntimeV2_x
+
+    name = case["prog"]
+    src, hist = API_PROGRAMS[name]
+    aged = bool(case.get("aged"))
+    base = {"key": repr((name, aged)), "picks": ["api:" + name], "sample": {"program": src, "history": hist, "aged": aged}, "nontrivial": True}
+    obs = {"api_programs": 1, "api_" + name: 1, "round_trips": 0, "cuts": 0, "events_compared": 0}
+
+    def mkrt():
+        rt = RuntimeV2_x(RailsConfig.from_content(src, 'colang_version: "2.x"\nmodels: []\n'))
+        cnt = {"n": 0}
+
+        async def fetch_source(which="a"):
+            return TAUGHT[which]
+
+        async def count(step=1):
+            cnt["n"] += step
+            return {"n": cnt["n"], "tags": ["t%d" % cnt["n"], {"k": (cnt["n"],)}]}
+
+        rt.register_action(fetch_source, "FetchSourceAction")
+        rt.register_action(count, "CountAction")
+        return rt
+
+    async def play(cut, age):
+        L["random"].reset(seed=case["seed"])
+        L["clock"].reset()
+        rt = mkrt()
+        out, st = await rt.process_events([], None, blocking=True)
+        steps_out = [out]
+        for i, ev in enumerate(hist):
+            if cut is not None and i == cut:
+                st = ser.json_to_state(ser.state_to_json(st))
+                obs["round_trips"] += 1
+                if age:
+                    L["clock"].advance(6.5)
+            out, st = await rt.process_events([{"type": ev}], st, blocking=True)
+            steps_out.append(out)
+        return canon(steps_out)
+
+    def run(cut, age=False):
+        steps.start(20_000_000)
+        try:
+            return asyncio.run(play(cut, age))
+        finally:
+            steps.stop()
+
+    try:
+        live = run(None)
+    except Exception as e:
+        return dict(base, verdict="inconclusive", reason="api-live-run-raised:%s" % type(e).__name__, detail=str(e)[:300], observed=obs, nontrivial=False)
+    if sum(len(x) for x in live) < 3:
+        return dict(base, verdict="inconclusive", reason="api-live-run-silent", observed=obs, nontrivial=False)
+    problems = []
+    for cut in range(0, len(hist)):
+        obs["cuts"] += 1
+        try:
+            got = run(cut, aged)
+        except Exception as e:
+            problems.append(("restored-raises" if not aged else "aged-restored-raises", cut, "%s: %s" % (type(e).__name__, str(e)[:200])))
+            break
+        obs["events_compared"] += sum(len(x) for x in live)
+        if got != live:
+            first = next(i for i, (a, b) in enumerate(zip(got, live)) if a != b)
+            problems.append(("restored-differs" if not aged else "aged-restored-differs", cut, {"step": first, "live": live[first], "restored": got[first]}))
+            break
+    if problems:
+        kind, cut, det = problems[0]
+        return dict(base, verdict="violated", kind=kind, detail=det if isinstance(det, str) else json_dumps(det), observed=obs,
+                    witness={"program": src, "history": hist, "cut": cut, "problem": kind, "detail": det, "driven_through": "RuntimeV2_x.process_events"})
+    return dict(base, verdict="held", observed=obs)
+
+
+def json_dumps(x):
+    import json
+
+    return json.dumps(x, default=str)[:600]
 
 
 def classify(r):
